@@ -130,7 +130,9 @@ type matOpts struct {
 }
 
 func genMatSpec(t *rapid.T, o matOpts) MatSpec {
-	pool := rapid.SampledFrom([]string{"ab", "abc", "ACGT", "a", "xyzwv", "a\x00\xfe"}).Draw(t, "letters")
+	// ("aAbB", "acgtACGTN": letters in both cases with scores of their own - soft-masked sequence -
+	// and an ambiguity code)
+	pool := rapid.SampledFrom([]string{"ab", "abc", "ACGT", "a", "xyzwv", "a\x00\xfe", "aAbB", "acgtACGTN"}).Draw(t, "letters")
 	n := len(pool)
 	s := MatSpec{Letters: gen.B(pool)}
 	style := rapid.IntRange(0, 3).Draw(t, "style")
@@ -412,4 +414,76 @@ func matDesc(s MatSpec) string {
 		d += fmt.Sprintf(" (all scores x%d)", s.Scale)
 	}
 	return d
+}
+
+// realAlignCases: pairs as real data has them - a kilobase locus against a copy with a repeat
+// expansion (an insertion crossing position 1024) and a small deletion, under aligner-style DNA
+// scoring; low-complexity and soft-masked sequence under a matrix that scores both cases;
+// protein with masked X stretches under the shipped tables (zero gap-open only).
+func realAlignCases(opens []int, sizes []int, emit func(AlignCase) bool) bool {
+	dna := func(match, mismatch, gap, open int) MatSpec {
+		m := MatSpec{Letters: gen.B("ACGT"), DelGap: []int{gap, gap, gap, gap}, InsGap: []int{gap, gap, gap, gap}, Open: open}
+		for i := 0; i < 4; i++ {
+			row := []int{mismatch, mismatch, mismatch, mismatch}
+			row[i] = match
+			m.Pair = append(m.Pair, row)
+		}
+		return m
+	}
+	for _, open := range opens {
+		for i, n := range sizes {
+			a := realDNA(n, 40+i, false, false)
+			b := bytes.Clone(a)
+			b = append(b[:1019+i:1019+i], append(bytes.Repeat([]byte("CAG"), 3+i), b[1019+i:]...)...) // expansion across 1024
+			b = append(b[:n/3:n/3], b[n/3+4:]...)                                                     // small deletion
+			for _, local := range []bool{false, true} {
+				if !emit(AlignCase{A: a, B: b, M: dna(1, -4, -1, open), Local: local}) || !emit(AlignCase{A: b[5 : len(b)-7], B: a, M: dna(2, -3, -2, open), Local: local}) {
+					return false
+				}
+			}
+		}
+		// short low-complexity pairs: homopolymers and microsatellites with different copy numbers
+		for _, pair := range [][2]string{{"AAAAAAAAAC", "CAAAAAAAAA"}, {"CAGCAGCAGCACACATAT", "CAGCAGCACACACATATAT"}, {"TTTTTTTT", "TTTTT"}, {"ACACACACGT", "ACACGT"},
+			{"GGGGCAGCAGTTTT", "GGGGCAGTTTT"}, {"ATATATATCGCGCG", "ATATCGCGCGCG"}} {
+			for _, local := range []bool{false, true} {
+				for _, m := range []MatSpec{dna(1, -4, -1, open), dna(1, -1, -1, open), dna(2, -3, -2, open)} {
+					if !emit(AlignCase{A: gen.B(pair[0]), B: gen.B(pair[1]), M: m, Local: local}) || !emit(AlignCase{A: gen.B(pair[1]), B: gen.B(pair[0]), M: m, Local: local}) {
+						return false
+					}
+				}
+			}
+		}
+		// both cases with scores of their own
+		mixed := MatSpec{Letters: gen.B("aAcC"), Pair: [][]int{{2, -1, -3, -3}, {-1, 3, -3, -2}, {-3, -3, 2, 0}, {-3, -2, 0, 4}}, DelGap: []int{-1, -2, -1, -2}, InsGap: []int{-1, -2, -1, -2}, Open: open}
+		for _, a := range allSeqs([]byte("aAcC"), 3) {
+			for _, b := range [][]byte{[]byte("aAcC"), []byte("AAaa"), []byte("c")} {
+				for _, local := range []bool{false, true} {
+					if !emit(AlignCase{A: a, B: b, M: mixed, Local: local}) {
+						return false
+					}
+				}
+			}
+		}
+	}
+	if len(opens) == 1 && opens[0] == 0 {
+		for _, name := range shippedNames {
+			if name == "Levenshtein" {
+				continue
+			}
+			letters := MatSpec{Named: name}.letters()
+			for v := 0; v < 6; v++ {
+				a := realProtein(20+7*v, v, letters)
+				b := append(bytes.Clone(a[3:]), a[:5]...)
+				if v%2 == 0 {
+					b = append([]byte("XX"), append(bytes.Clone(a), 'X', 'X')...)
+				}
+				for _, local := range []bool{false, true} {
+					if !emit(AlignCase{A: a, B: b, M: MatSpec{Named: name}, Local: local}) || !emit(AlignCase{A: b, B: a, M: MatSpec{Named: name}, Local: local}) {
+						return false
+					}
+				}
+			}
+		}
+	}
+	return true
 }
